@@ -321,7 +321,9 @@ func run(p props.Prop) int {
 		}
 		unknown++
 		if unknown > 8 {
-			fmt.Printf("VIOLATION property=%s replay=(not minimised: more than 8 distinct signatures) sig=%q cases=%d\n", p.ID(), sig, len(rs))
+			if unknown < 40 {
+				fmt.Printf("VIOLATION property=%s replay=(not minimised: more than 8 distinct signatures) sig=%q cases=%d\n", p.ID(), sig, len(rs))
+			}
 			continue
 		}
 		path := reportViolation(p, rs[0], sig)
